@@ -59,6 +59,11 @@ def run(P, rep, tier):
     from . import c03
 
     rep.attempt(c03.r3b_find_files_filter, P, rep, ctx, "C04.R2")
+    # a merged container keeps the predecessor link of the oldest merged container: a merged *baseless* chain stays baseless
+    # (and is refused without its base), a merged complete chain is a base (identity rule of C05.R3)
+    from . import c05
+
+    rep.attempt(c05.r3_identity, P, rep, ctx)
     rep.attempt(r3_subclass, P, rep, ctx)
     rep.attempt(r4_magic_parse, P, rep, ctx)
     rep.attempt(r5_payload_hash, P, rep, ctx)
